@@ -381,6 +381,64 @@ fn cmd_one(args: &[String]) -> i32 {
     }
 }
 
+/// Re-execute, in this fresh process, the exact sequence of runs a worker made
+/// (indices worker, worker+workers, ... , upto) and report the last one.  Used for
+/// violations that need state left in the process by the runs before them (a
+/// process-wide cache in the code under test, for instance).
+fn run_seq(prop: &str, tier: &str, seed: u64, worker: u64, workers: u64, upto: u64) -> (Option<Violation>, Option<Case>) {
+    let engine = match engines::get(prop) {
+        Some(e) => e,
+        None => return (None, None),
+    };
+    quiet_panics();
+    let beat = std::sync::Arc::new(std::sync::atomic::AtomicU64::new(0));
+    start_watchdog(beat.clone(), 120);
+    let sb = Sandbox::new();
+    let mut index = worker;
+    let mut last = (None, None);
+    while index <= upto {
+        beat.store(index.wrapping_add(1), std::sync::atomic::Ordering::Relaxed);
+        let case = make_case(engine, seed, tier, index);
+        let o = engine.execute(&case, &sb);
+        if index == upto {
+            last = (o.violation, Some(case));
+        }
+        index += workers;
+    }
+    last
+}
+
+fn cmd_seq(args: &[String]) -> i32 {
+    let prop = arg(args, "--prop").expect("--prop");
+    let tier = arg(args, "--tier").unwrap_or_else(|| "quick".into());
+    let seed = arg_u64(args, "--seed", 1);
+    let worker = arg_u64(args, "--worker", 0);
+    let workers = arg_u64(args, "--workers", 1);
+    let upto = arg_u64(args, "--upto", 0);
+    let (v, case) = run_seq(&prop, &tier, seed, worker, workers, upto);
+    match (v, case) {
+        (Some(v), Some(case)) => {
+            println!("FOUND property={} index={} clause={} detail={}", prop, upto, v.clause, v.detail);
+            if let Some(d) = arg(args, "--dump") {
+                let doc = json!({
+                    "format": "kmsim-seq-replay-1",
+                    "property": prop,
+                    "violation": {"clause": v.clause, "detail": v.detail},
+                    "sequence": {"tier": tier, "seed": seed, "worker": worker, "workers": workers, "upto": upto},
+                    "note": "this violation does not reproduce when run alone in a fresh process: it needs the state that the earlier runs of the same worker left in the process (e.g. a process-wide cache in the code under test); replay re-executes the worker's whole run sequence up to the failing index",
+                    "case": case,
+                });
+                std::fs::write(&d, serde_json::to_string_pretty(&doc).unwrap()).expect("write seq replay");
+            }
+            1
+        }
+        _ => {
+            println!("OK property={} index={} (sequence replay)", prop, upto);
+            0
+        }
+    }
+}
+
 fn cmd_minimise(args: &[String]) -> i32 {
     let (case, v) = load_case_file(&args[0]);
     let engine = match engines::get(&case.prop) {
@@ -428,6 +486,40 @@ fn cmd_minimise(args: &[String]) -> i32 {
 }
 
 fn cmd_replay(args: &[String]) -> i32 {
+    if let Ok(text) = std::fs::read_to_string(&args[0]) {
+        if let Ok(doc) = serde_json::from_str::<serde_json::Value>(&text) {
+            if doc.get("format").and_then(|f| f.as_str()) == Some("kmsim-seq-replay-1") {
+                let sq = &doc["sequence"];
+                let prop = doc["property"].as_str().unwrap_or("").to_string();
+                let (v, _) = run_seq(
+                    &prop,
+                    sq["tier"].as_str().unwrap_or("quick"),
+                    sq["seed"].as_u64().unwrap_or(1),
+                    sq["worker"].as_u64().unwrap_or(0),
+                    sq["workers"].as_u64().unwrap_or(1),
+                    sq["upto"].as_u64().unwrap_or(0),
+                );
+                let exp_clause = doc["violation"]["clause"].as_str().unwrap_or("");
+                return match v {
+                    Some(v) => {
+                        println!(
+                            "REPLAY property={} reproduced={} clause={} detail={} (sequence of runs)",
+                            prop,
+                            v.clause == exp_clause,
+                            v.clause,
+                            v.detail
+                        );
+                        println!("VIOLATION property={} replay={}", prop, args[0]);
+                        1
+                    }
+                    None => {
+                        println!("REPLAY property={} reproduced=false (no violation on this tree)", prop);
+                        0
+                    }
+                };
+            }
+        }
+    }
     let (case, expected) = load_case_file(&args[0]);
     let engine = match engines::get(&case.prop) {
         Some(e) => e,
@@ -477,6 +569,7 @@ fn main() {
         "run" => cmd_run(&args[1..]),
         "one" => cmd_one(&args[1..]),
         "minimise" => cmd_minimise(&args[1..]),
+        "seq" => cmd_seq(&args[1..]),
         "replay" => cmd_replay(&args[1..]),
         other => {
             eprintln!("unknown command {other}");
